@@ -33,7 +33,7 @@ def gen_script(rng, max_gates=24, max_in=6, max_ff=3, p_glitchy=0.2, style=None,
     n_fl = rng.choice([0, 0, 0, 0, 1, 2]) if allow_floating else 0
     ffs = []
     for _ in range(n_ff):
-        ffs.append([rng.choice(['dff', 'DFF', 'DFFX1', 'dff', 'latch', 'LATCH']), rng.randrange(1 << 16), rng.random() < 0.3])
+        ffs.append([rng.choice(['dff', 'DFF', 'DFFX1', 'dff', 'latch', 'LATCH', 'SDFFX1', 'sdffr', 'AODFFARX1_RVT', 'DLATCH', 'tlatch']), rng.randrange(1 << 16), rng.random() < 0.3])
     gates = []
     n_sig = n_in + n_fl + 2 * n_ff
     unread = list(range(n_in)) + list(range(n_in + n_fl, n_sig))
